@@ -673,4 +673,134 @@ theorem allNames_withData (pre post : List ModelData) (m : ModelData) (d : Data)
       allNames pre ++ (m.transformedParams ++ parameterNames d) ++ allNames post := by
   simp [allNames, withData, ModelData.transformedParams, List.flatMap_append]
 
+/-! ### the samples a dataset holds -/
+
+theorem keepValid_length {α} (nx ny : List Bool) (xs : List α) (h1 : nx.length = ny.length)
+    (h2 : xs.length = nx.length) : (keepValid nx ny xs).length = countValid nx ny := by
+  induction nx generalizing ny xs with
+  | nil => cases ny <;> cases xs <;> simp_all [keepValid, countValid]
+  | cons a as ih =>
+    cases ny with
+    | nil => simp at h1
+    | cons b bs =>
+      cases xs with
+      | nil => simp at h2
+      | cons v vs =>
+        simp only [List.length_cons, Nat.add_right_cancel_iff] at h1 h2
+        simp only [keepValid, countValid]
+        split <;> simp [ih bs vs h1 h2] <;> omega
+
+theorem keepValid_no_nan {α} (nx ny : List Bool) (xs : List α) (h1 : nx.length = ny.length)
+    (h2 : xs.length = nx.length) (hx : ∀ b ∈ nx, b = false) (hy : ∀ b ∈ ny, b = false) :
+    keepValid nx ny xs = xs := by
+  induction nx generalizing ny xs with
+  | nil =>
+    cases xs with
+    | nil => cases ny <;> rfl
+    | cons v vs => simp at h2
+  | cons a as ih =>
+    cases ny with
+    | nil => simp at h1
+    | cons b bs =>
+      cases xs with
+      | nil => simp at h2
+      | cons v vs =>
+        simp only [List.length_cons, Nat.add_right_cancel_iff] at h1 h2
+        simp only [List.mem_cons, forall_eq_or_imp] at hx hy
+        simp only [keepValid, hx.1, hy.1, Bool.or_self, Bool.false_eq_true, if_false]
+        rw [ih bs vs h1 h2 hx.2 hy.2]
+
+/-- `G` still has every model of `F`, and every dataset of `F` is still there, at its place, as it was (name,
+    transformations, the samples it holds); datasets may have been appended. -/
+def Keeps (F G : Fit) : Prop :=
+  ∀ (mi : Nat) (m : ModelData), F.models[mi]? = some m →
+    ∃ m' : ModelData, G.models[mi]? = some m' ∧ m.data <+: m'.data
+
+theorem Keeps.refl (F : Fit) : Keeps F F := fun _ m h => ⟨m, h, List.prefix_refl _⟩
+
+theorem Keeps.trans {F G H : Fit} (a : Keeps F G) (b : Keeps G H) : Keeps F H := fun mi m h => by
+  obtain ⟨m', h', p⟩ := a mi m h
+  obtain ⟨m'', h'', q⟩ := b mi m' h'
+  exact ⟨m'', h'', p.trans q⟩
+
+theorem Keeps.of_models {F G : Fit} (h : G.models = F.models) : Keeps F G := fun _ m hm => ⟨m, h ▸ hm, List.prefix_refl _⟩
+
+theorem keeps_build (r : Bool) (F : Fit) : Keeps F (F.build r) := fun mi m h => by
+  refine ⟨{ m with built := true }, ?_, List.prefix_refl _⟩
+  simp [Fit.build, h]
+
+theorem keeps_rebuild (r : Bool) (F : Fit) : Keeps F (F.rebuild r) := by
+  unfold Fit.rebuild
+  split
+  · exact keeps_build r F
+  · exact Keeps.refl F
+
+theorem keeps_set_model (F : Fit) (mi : Nat) (m m' : ModelData) (hm : F.models[mi]? = some m)
+    (hp : m.data <+: m'.data) : Keeps F { F with models := F.models.set mi m' } := fun j mj hj => by
+  by_cases e : mi = j
+  · subst e
+    rw [hm] at hj; cases hj
+    refine ⟨m', ?_, hp⟩
+    have : mi < F.models.length := by
+      rcases Nat.lt_or_ge mi F.models.length with h | h
+      · exact h
+      · rw [List.getElem?_eq_none h] at hm; cases hm
+    simp [this]
+  · exact ⟨mj, by simp [List.getElem?_set_ne e, hj], List.prefix_refl _⟩
+
+theorem keeps_addData (F : Fit) (mi : Nat) (name : String) (ov : List (String × Target)) (nx ny : List Bool)
+    (xs ys : List Nat) : Keeps F (F.addData mi name ov nx ny xs ys).1 := by
+  unfold Fit.addData
+  split
+  · exact Keeps.refl F
+  · rename_i m hm
+    split
+    · exact Keeps.refl F
+    · split
+      · exact Keeps.refl F
+      · split
+        · exact keeps_set_model F mi m _ hm (List.prefix_refl _)
+        · exact keeps_set_model F mi m _ hm (List.prefix_append _ _)
+
+theorem keeps_setField (r : Bool) (F : Fit) (name : String) (f : Field) : Keeps F (F.setField r name f).1 := by
+  unfold Fit.setField
+  refine (keeps_rebuild r F).trans ?_
+  simp only
+  split
+  · exact Keeps.of_models rfl
+  · exact Keeps.refl _
+
+theorem keeps_fit (r : Bool) (opt : Opt) (F : Fit) : Keeps F (F.fit r opt).1 := by
+  unfold Fit.fit
+  refine (keeps_rebuild r F).trans ?_
+  simp only
+  split
+  · exact Keeps.refl _
+  · split
+    · exact Keeps.refl _
+    · split
+      · exact Keeps.refl _
+      · split
+        · exact Keeps.refl _
+        · exact Keeps.of_models rfl
+
+theorem keeps_step (r : Bool) (F : Fit) (a : Action) : Keeps F (step r F a).1 := by
+  cases a with
+  | add mi name ov nx ny xs ys => exact keeps_addData F mi name ov nx ny xs ys
+  | set name f => exact keeps_setField r F name f
+  | fit o => exact keeps_fit r _ F
+  | query => exact keeps_rebuild r F
+  | jac mi name sens => exact keeps_rebuild r F
+
+theorem keeps_exec (r : Bool) (F : Fit) (acts : List Action) : Keeps F (exec r F acts) := by
+  induction acts generalizing F with
+  | nil => exact Keeps.refl F
+  | cons a as ih => exact (keeps_step r F a).trans (ih _)
+
+theorem run_append (r : Bool) (F : Fit) (as bs : List Action) :
+    run r F (as ++ bs) = run r F as ++ run r (exec r F as) bs := by
+  induction as generalizing F with
+  | nil => rfl
+  | cons a as ih => simp [run, exec, ih]
+
 end Verif.C14
